@@ -86,7 +86,10 @@ MatApi == {"t2r", "r2t", "tr2rt", "rt2tr", "trinv", "trinv2", "trlog(R)", "trlog
            "SE3([T,T])", "SO3([R,R])", "SE3*points", "SO3*points", "SE2*points", "UnitQuaternion*points"}
 
 \* entries documented ":SymPy: supported" (C16) and the symbolic pose expressions built over them
-SymApi == {"simplify", "rotx", "roty", "rotz", "trotx", "troty", "trotz", "transl", "eul2r", "eul2tr", "delta2tr", "trinv", "trinv2",
+SymApi == {"qpow(-3)", "qpow(-2)", "qpow(-1)", "qpow(0)", "qpow(3)",        \* integer powers of a symbolic quaternion
+           "SE3(ndarray[x,y,z])", "SE3(ndarray column)", "SE3([x,y,z])",          \* vector call forms of the SE3 constructor
+           \* (SE2 / SO2 carry no 'SymPy: supported' mark: not in the scope of C16)
+           "simplify", "rotx", "roty", "rotz", "trotx", "troty", "trotz", "transl", "eul2r", "eul2tr", "delta2tr", "trinv", "trinv2",
            "tr2delta", "tr2jac", "skew", "vex", "skewa", "vexa", "det", "norm", "normsq", "cross", "qpow", "conj",
            "SO3.Rx", "SO3.Ry", "SO3.Rz", "SO3.Eul", "SO3.RPY", "SE3.Rx", "SE3.Ry", "SE3.Rz", "SE3.Tx", "SE3.Ty", "SE3.Tz",
            "SE3.Eul", "SE3.RPY", "SE3.Delta", "SE3(x,y,z)", "SE3.t", "SE3.R", "SE3.inv", "SE3.Ad", "SE3.jacob",
@@ -110,7 +113,12 @@ UnitIn  == {"rotx", "roty", "rotz", "trotx", "troty", "trotz", "rot2", "trot2", 
             "eul2r", "eul2tr", "angvec2r", "angvec2tr", "SO2", "SE2", "SO3.Rx", "SO3.Ry", "SO3.Rz", "SO3.RPY",
             "SO3.Eul", "SO3.AngVec", "SE3.Rx", "SE3.Ry", "SE3.Rz", "SE3.RPY", "SE3.Eul", "SE3.AngVec",
             "UnitQuaternion.Rx", "UnitQuaternion.Ry", "UnitQuaternion.Rz", "UnitQuaternion.RPY",
-            "UnitQuaternion.Eul", "UnitQuaternion.AngVec", "Twist3.Rx", "Twist3.Ry", "Twist3.Rz", "getunit"}
+            "UnitQuaternion.Eul", "UnitQuaternion.AngVec", "Twist3.Rx", "Twist3.Ry", "Twist3.Rz", "getunit",
+            \* sequence forms (a vector of angles, an N x 3 array of triples) and the twist exponential
+            "SO2(vector)", "SO3.Rx(vector)", "SO3.Ry(vector)", "SO3.Rz(vector)", "SE3.Rx(vector)", "SE3.Ry(vector)",
+            "SE3.Rz(vector)", "UnitQuaternion.Rx(vector)", "Twist3.Rx(vector)", "SO3.RPY(Nx3)", "SE3.RPY(Nx3)",
+            "SO3.Eul(Nx3)", "SE3.Eul(Nx3)", "Twist3.exp(theta)", "Twist3.exp(vector)", "Twist2.exp(theta)",
+            "Twist2.exp(vector)"}
 UnitOut == {"tr2rpy", "tr2eul", "tr2angvec", "tr2xyt", "SO3.rpy", "SO3.eul", "SO3.angvec", "SE3.rpy", "SE3.eul",
             "SE3.angvec", "SO2.theta", "SE2.theta", "SE2.xyt", "UnitQuaternion.rpy", "UnitQuaternion.eul",
             "UnitQuaternion.angvec"}
